@@ -656,6 +656,48 @@ def _run_case(ck, env: Env, sig, rng, reqs, metas, stats):
                       and same_value(env.np, v_, var._value.value)), "?")
         real_outs.append({"key": k, "type": t, "value": v})
     metas.append(("infer", sig, {"outs": real_outs, "warns": sorted((a, b or "") for a, b in wl)}))
+    # ---- `Node.__init__` with its flags (`Custom.construct`): same class, attributes and inputs, hooks switched
+    h_ = sig["version"] * 7 + sig["level"] * 3 + len(sig["attrs"]) + 5 * len(sig["inputs"]) + len(sig["name"])
+    flags = [bool(h_ & 1), bool(h_ >> 1 & 1), bool(h_ >> 2 & 1)]  # a function of the signature: replays reproduce it
+    try:
+        import contextlib
+
+        with warnings.catch_warnings(record=True) as caught2:
+            warnings.simplefilter("always")
+            lvl = env.fut.type_warning_level(env.levels[sig["level"]]) if env.can_level else contextlib.nullcontext()
+            with lvl:
+                node2 = cls(node.attrs, node.inputs, out_variadic=sig["inst"]["out_nvar"],
+                            infer_types=flags[0], propagate_values=flags[1], validate=flags[2])
+        outs2 = list(node2.outputs.get_vars().items())
+    except Exception as e:  # noqa: BLE001
+        ck.failure("hooks:construct-raises", f"constructing with infer_types={flags[0]}, propagate_values={flags[1]}, "
+                   f"validate={flags[2]} raised {type(e).__name__}: {e}"[:300], case)
+        outs2 = None
+    if outs2 is not None:
+        stats["construct_flag_cases"] = stats.get("construct_flag_cases", 0) + 1
+        if [k for k, _ in outs2] != keys:
+            ck.failure("hooks:output-keys", f"output Vars {[k for k, _ in outs2]}, declared {keys} (flags {flags})", case)
+        for k, var in outs2:
+            want_t = (th or {}).get(k) if flags[0] else None
+            if var.type != want_t:
+                ck.failure("hooks:type-mismatch", f"output {k}: type {var.type}, expected {want_t} with infer_types={flags[0]}", case)
+            if var._value is not None and (not flags[1] or want_t is None or not (vh is not None and k in vh and conforms(env, want_t, vh[k]))):
+                ck.failure("hooks:value-unexpected", f"output {k}: Var carries value {var._value} with flags {flags}", case)
+        wl2 = classify_warnings(caught2)
+        if not flags[2] and any(kind in ("missing", "notConcrete") for kind, _ in wl2):
+            ck.failure("hooks:foreign-warning", f"validate=False but validation warnings {wl2}", case)
+        decl = [[n, k == "variadic"] for n, k in sig["outputs"]]
+        reqs.append({"kind": "construct", "decl": decl, "nvar": sig["inst"]["out_nvar"] or 0, "flags": flags,
+                     "thook": thook, "vhook": vhook, "check": passing, "level": sig["level"],
+                     "concrete": concrete, "inTypes": in_types})
+        real2 = []
+        for k, var in outs2:
+            t = None if var.type is None else next((tk for tk, t_ in tok_t.items() if t_ == var.type), "?")
+            v = None
+            if var._value is not None:
+                v = next((vk for vk, v_ in tok_v.items() if v_ is (vh or {}).get(k) and same_value(env.np, v_, var._value.value)), "?")
+            real2.append({"key": k, "type": t, "value": v})
+        metas.append(("infer", sig, {"outs": real2, "warns": sorted((a, b or "") for a, b in wl2)}))
     # ---- what the built graph carries for the outputs requested as results (`Custom.resultInfo`)
     in_vars = list(node.inputs.get_vars().values())
     if outs and all(v.type is not None and v.type._is_concrete for v in in_vars):
